@@ -27,7 +27,7 @@ def run(tier):
                       "transform kind x flags); each goes through GlyfLocaBuilder, the bytes per glyph are decoded and "
                       "judged by GlyfTrace (equality with the input, padding, length bound, loca), read-fonts' readers are "
                       "judged against the input, from_bezpath glyphs are drawn unscaled by skrifa and compared with the "
-                      "input path, and tables around the short-loca limit are built and read back.")
+                      "input path, and tables around the short-loca limit are built and read back. A sample of the glyphs of every glyf font of the corpus (40 per font, thorough 400) is decoded from its raw bytes by Glyf.tla and compared with what read-fonts returns.")
     ck.assumptions = ["composite instructions cannot be set through the public builder API and are not covered",
                       "drawn paths are compared for contours that start on an on-curve point with even coordinates"]
     wd = vlib.workdir(PID)
@@ -47,6 +47,11 @@ def run(tier):
         res = vlib.run_harness("fv-write", ["c09", "random", "--seed", vlib.seed() + i, "--n", 80 if tier == "quick" else 400, "--out", t2])
         ck.add_harness("record:random:%d" % i, res, traces=False)
         validate(ck, wd, "random:%d" % i, t2)
+    # V on the corpus: bytes of real glyphs and what read-fonts decodes from them, judged by the specification's decoder
+    t3 = os.path.join(wd, "corpus.ndjson")
+    res = vlib.run_harness("fv-write", ["c09", "corpus", "--per-font", 40 if tier == "quick" else 400, "--out", t3], timeout=3000)
+    ck.add_harness("record:corpus", res, traces=False)
+    validate(ck, wd, "corpus", t3)
     return ck.finish()
 
 
